@@ -18,7 +18,7 @@ Definition needs_item (p : pc) : bool :=
 
 Definition L1 (s : gst) : Prop := forall t, needs_item (pcs s t) = true -> lst s <> [].
 Definition L2 (s : gst) : Prop :=
-  forall e, In e (lst s) -> e_linked e = false -> exists t w q, pcs s t = PA_link (e_id e) w q.
+  forall e, In e (lst s) -> e_linked e = false -> exists t w q o, pcs s t = PA_link (e_id e) w q o.
 
 Definition Inv2 (ina : bool) (s : gst) : Prop := Inv ina s /\ L1 s /\ L2 s.
 
@@ -56,12 +56,12 @@ Proof. destruct p; cbn; try discriminate; reflexivity. Qed.
 (* a step that leaves the list alone and moves only t, which is not between its exchange and its link *)
 Lemma frame_L s s' t p' :
   L1 s -> L2 s -> lst s' = lst s -> pcs s' = upd (pcs s) t p' -> (needs_item p' = true -> lst s <> []) ->
-  (forall i w q, pcs s t <> PA_link i w q) -> L1 s' /\ L2 s'.
+  (forall i w q o, pcs s t <> PA_link i w q o) -> L1 s' /\ L2 s'.
 Proof.
   intros H1 H2 El Ep Hn Hl. split.
   - intros u. rewrite El, Ep. destruct (Z.eq_dec u t) as [->|N]; [rewrite upd_same; exact Hn | rewrite upd_other by exact N; apply H1].
-  - intros e. rewrite El, Ep. intros Hin He. destruct (H2 e Hin He) as (u & w & q & E).
-    exists u, w, q. rewrite upd_other; [exact E|]. intros ->. apply (Hl _ _ _ E).
+  - intros e. rewrite El, Ep. intros Hin He. destruct (H2 e Hin He) as (u & w & q & o & E).
+    exists u, w, q, o. rewrite upd_other; [exact E|]. intros ->. apply (Hl _ _ _ _ E).
 Qed.
 
 Ltac break_B B :=
@@ -85,16 +85,16 @@ Proof.
     + (* PA_xchg *) injection B as <-. split.
       * intros u. sproj. intros Hn. destruct (lst s); discriminate.
       * intros e. sproj. intros Hin Hl. apply in_app_or in Hin. destruct Hin as [Hin|[<-|[]]].
-        -- destruct (H2 e Hin Hl) as (u & w & q & E). exists u, w, q. rewrite upd_other; [exact E|]. intros ->. congruence.
-        -- exists t. eexists. eexists. rewrite upd_same. cbn [e_id]. reflexivity.
+        -- destruct (H2 e Hin Hl) as (u & w & q & o & E). exists u, w, q, o. rewrite upd_other; [exact E|]. intros ->. congruence.
+        -- exists t. eexists. eexists. eexists. rewrite upd_same. cbn [e_id]. reflexivity.
     + (* PA_link *) injection B as <-. split.
       * intros u. sproj. intros Hn. rewrite link_nil_iff.
-        destruct (Z.eq_dec u t) as [->|N]; [rewrite upd_same in Hn; destruct was_empty; discriminate|].
+        destruct (Z.eq_dec u t) as [->|N]; [rewrite upd_same in Hn; destruct was_empty; try destruct ovr; discriminate|].
         rewrite upd_other in Hn by exact N. apply (H1 u Hn).
       * intros e. sproj. intros Hin Hl.
         destruct (in_link_id _ _ _ (ids_nodup ina s I) Hin Hl) as [Hin' Hne].
-        destruct (H2 e Hin' Hl) as (u & w & q & E). exists u, w, q. rewrite upd_other; [exact E|]. intros ->.
-        rewrite Hpc in E. injection E as E _ _. congruence.
+        destruct (H2 e Hin' Hl) as (u & w & q & o & E). exists u, w, q, o. rewrite upd_other; [exact E|]. intros ->.
+        rewrite Hpc in E. injection E as E _ _ _. congruence.
     + (* PW_tail *) break_B B; frame_tac s t H1 H2 Hpc. intros _. congruence.
     + (* PW_head *) break_B B; frame_tac s t H1 H2 Hpc. intros _. congruence.
     + (* PW_chk *) break_B B; frame_tac s t H1 H2 Hpc. intros _. apply (H1 t). rewrite Hpc. reflexivity.
@@ -112,7 +112,7 @@ Proof.
         -- intros u. sproj. discriminate.
         -- intros e'. sproj. intros Hin Hl.
            assert (Hin' : In e' (lst s)) by (rewrite L; right; exact Hin).
-           destruct (H2 e' Hin' Hl) as (u & w & q & E). exists u, w, q. rewrite upd_other; [exact E|]. intros ->. congruence.
+           destruct (H2 e' Hin' Hl) as (u & w & q & o & E). exists u, w, q, o. rewrite upd_other; [exact E|]. intros ->. congruence.
     + (* PW_run *) injection B as <-. eapply (frame_L s _ t); [exact H1 | exact H2 | sproj; reflexivity | sproj; reflexivity | | rewrite Hpc; discriminate].
       intros X. apply (H1 t). rewrite Hpc. destruct more; [reflexivity | discriminate X].
     + (* PW_incall *) injection B as <-. eapply (frame_L s _ t); [exact H1 | exact H2 | sproj; reflexivity | sproj; reflexivity | | rewrite Hpc; discriminate].
@@ -190,7 +190,9 @@ Proof.
     rewrite Genc. unfold SERIAL_OWNED, ENQUEUED.
     rewrite (cbc_fields r qos 1 (b2z target) (if target then 2147483648 else 0) Gwf Ib Wq Grole Q) by (destruct target; auto).
     cbv zeta. repeat match goal with |- context [if ?c then _ else _] => destruct c end; eexists; reflexivity.
-  - (* PR_wake: never reached *) destruct (T t) as (_ & _ & _ & _ & _ & _ & _ & _ & T9). rewrite Hpc in T9. discriminate T9.
+  - (* PA_owake *) pose proof (qos_in_range ina s t qos I) as Q. rewrite Hpc in Q. specialize (Q eq_refl).
+    rewrite Genc. unfold ENQUEUED. rewrite (wakeup_fields_plain r qos 1 1 Gwf Q eq_refl). cbv zeta.
+    repeat match goal with |- context [if ?c then _ else _] => destruct c end; eexists; reflexivity.
   - (* PC_rmw *) rewrite Genc, (activate_fields r Gwf).
     destruct (f_hi r =? 3); [|destruct ((f_hi r / 2) mod 2 =? 1)];
       repeat match goal with |- context [if ?c then _ else _] => destruct c end; eexists; reflexivity.
@@ -228,8 +230,8 @@ Proof.
   intros Hrb R NI NCr. pose proof (active_valid rb ina s R t NI) as Vt.
   destruct (waits_pc (pcs s t)) eqn:Wt; [|left; apply (nonwaiting_enabled rb ina s t Hrb R Vt NI Wt NCr)].
   destruct (Inv2_reachable rb ina s Hrb R) as (I & H1 & H2). pose proof I as [_ T].
-  assert (LinkEn : forall u i w q, pcs s u = PA_link i w q -> enabled rb s u).
-  { intros u i w q E. unfold enabled, gstep. rewrite E. eexists. reflexivity. }
+  assert (LinkEn : forall u i w q o, pcs s u = PA_link i w q o -> enabled rb s u).
+  { intros u i w q o E. unfold enabled, gstep. rewrite E. eexists. reflexivity. }
   assert (Side : sidelock_pc (pcs s t) = false -> forall w, sidelock s = Some w ->
                  (exists u, u <> t /\ enabled rb s u) \/ (exists u, crashed_pc (pcs s u) = true)).
   { intros Ns w E. assert (Sw : sidelock_pc (pcs s w) = true) by (destruct (T w) as (_ & _ & _ & T4 & _); apply T4; exact E).
@@ -244,14 +246,14 @@ Proof.
     assert (L : lst s <> []) by (apply (H1 t); rewrite Hpc; reflexivity).
     destruct (lst s) as [|e l] eqn:E; [contradiction|].
     destruct (e_linked e) eqn:El; [left; eexists; reflexivity|].
-    right; left. destruct (H2 e) as (u & w & q & Eu); [rewrite E; left; reflexivity | exact El |].
-    exists u. split; [intros ->; congruence | apply (LinkEn u _ _ _ Eu)].
+    right; left. destruct (H2 e) as (u & w & q & o & Eu); [rewrite E; left; reflexivity | exact El |].
+    exists u. split; [intros ->; congruence | apply (LinkEn u _ _ _ _ Eu)].
   - (* PW_pop *)
     assert (L : lst s <> []) by (apply (H1 t); rewrite Hpc; reflexivity).
     destruct (lst s) as [|e [|e2 l]] eqn:E; [contradiction | left; eexists; reflexivity |].
     destruct (e_linked e2) eqn:El; [left; eexists; reflexivity|].
-    right; left. destruct (H2 e2) as (u & w & q & Eu); [rewrite E; right; left; reflexivity | exact El |].
-    exists u. split; [intros ->; congruence | apply (LinkEn u _ _ _ Eu)].
+    right; left. destruct (H2 e2) as (u & w & q & o & Eu); [rewrite E; right; left; reflexivity | exact El |].
+    exists u. split; [intros ->; congruence | apply (LinkEn u _ _ _ _ Eu)].
   - (* PS_slock *)
     destruct (sidelock s) as [w|] eqn:E; [right; apply (Side eq_refl w eq_refl) | left; eexists; reflexivity].
   - (* PR_slock *)
@@ -260,8 +262,8 @@ Proof.
     assert (L : lst s <> []) by (apply (H1 t); rewrite Hpc; reflexivity).
     destruct (lst s) as [|e l] eqn:E; [contradiction|].
     destruct (e_linked e) eqn:El; [left; eexists; reflexivity|].
-    right; left. destruct (H2 e) as (u & w & q & Eu); [rewrite E; left; reflexivity | exact El |].
-    exists u. split; [intros ->; congruence | apply (LinkEn u _ _ _ Eu)].
+    right; left. destruct (H2 e) as (u & w & q & o & Eu); [rewrite E; left; reflexivity | exact El |].
+    exists u. split; [intros ->; congruence | apply (LinkEn u _ _ _ _ Eu)].
 Qed.
 
 (* dispatch_suspend / dispatch_resume / dispatch_activate never block on drainers or submitters: outside the side
@@ -286,7 +288,8 @@ Qed.
 (* dispatch_async never waits either (as in SLane) *)
 Theorem async_never_blocks rb ina s t :
   0 <= rb < 2 -> reach rb ina s ->
-  (match pcs s t with PA_xchg _ | PA_link _ _ _ | PA_probe _ | PA_wake _ _ | PA_rootpush => true | _ => false end) = true ->
+  (match pcs s t with PA_xchg _ _ | PA_link _ _ _ _ | PA_probe _ | PA_wake _ _ | PA_rootpush | PA_oprobe _ | PA_owake _ => true
+   | _ => false end) = true ->
   enabled rb s t.
 Proof.
   intros Hrb R H.
@@ -334,10 +337,10 @@ Qed.
    on its target; worker 9 runs item 1. *)
 Definition steps (t : Z) (n : nat) : list action := repeat (AStep t) n.
 Definition demo_susp : list action :=
-  [ABegin 5 (CAsync 2)] ++ steps 5 5 ++
+  [ABegin 5 (CAsync 2 false)] ++ steps 5 5 ++
   [ABegin 7 (CWorker 0)] ++ steps 7 7 ++       (* lock (qos floor retry), lock, tail, head, chk, pop, run: inside the callout *)
   [ABegin 8 CSuspend] ++ steps 8 2 ++          (* the suspending RMW, return *)
-  [ABegin 6 (CAsync 4)] ++ steps 6 4 ++        (* exchange, link, probe, wakeup (no enqueue: suspended) *)
+  [ABegin 6 (CAsync 4 false)] ++ steps 6 4 ++        (* exchange, link, probe, wakeup (no enqueue: suspended) *)
   steps 7 5.                                   (* callout ends, next, head, chk -> suspended, invoke_finish *)
 Definition demo_resume : list action :=
   [ABegin 8 CResume] ++ steps 8 6 ++           (* rmw (takes the lock), tail, suspended?, head, class_barrier_complete, push *)
